@@ -429,7 +429,10 @@ pub fn get_file_change_description_from_file_paths(
             } else {
                 Cow::from(file)
             };
-            match (config.hyperlinks, utils::path::absolute_path(file, config)) {
+            // For binary files a note has been appended to the stored name (see
+            // handle_diff_header_misc_line): it is displayed, but is not part of the path.
+            let path = file.strip_suffix(" (binary file)").unwrap_or(file);
+            match (config.hyperlinks, utils::path::absolute_path(path, config)) {
                 (true, Some(absolute_path)) => features::hyperlinks::format_osc8_file_hyperlink(
                     absolute_path,
                     None,
